@@ -478,8 +478,19 @@ PREAMBLE = (common.COQ_HEADER +
             "Definition ev (r : positive) (a : acc) (k : okind) : event := {| e_root := r; e_acc := a; e_kind := k |}.\n"
             "Definition cx (k : ckind) (a : option (list event)) (b : list event) : context :=\n"
             "  {| c_kind := k; c_always := a; c_body := b |}.\n"
-            "Definition verdict_ok (m : Usage.design -> verdict) (c : Usage.design * bool) : bool :=\n"
-            "  Bool.eqb (accepted (m (fst c))) (snd c).\n")
+            "Inductive real := RealAccept | RealReject (r : reason) | RealRejectUnmodelled | RealRejectOther.\n"
+            "(* RealRejectUnmodelled: rejected by a rule outside the anchored code (verdict compared only);\n"
+            "   RealRejectOther: rejected with a message the model does not know (never agrees) *)\n"
+            "Definition verdict_ok (m : Usage.design -> verdict) (c : Usage.design * real) : bool :=\n"
+            "  match m (fst c), snd c with\n"
+            "  | Accept, RealAccept => true\n"
+            "  | Reject r, RealReject r' => reason_eqb r r'\n"
+            "  | Reject _, RealRejectUnmodelled => true\n"
+            "  | _, _ => false\n"
+            "  end.\n")
+
+# rejections by rules outside the anchored code that the placements can reach (verdict compared, reason not)
+UNMODELLED = ("pushed signal requires default value",)
 
 
 def model_fn():
@@ -534,8 +545,17 @@ def evaluate(ck, placements, tag):
         ck.nontrivial(placement_key(p))
 
     # ---- (1) model tie, inside Coq -------------------------------------------------------
-    cases = ["(%s, %s)" % (t, "true" if a else "false") for t, a in zip(terms, accepted)]
-    bad = set(common.coq_bad_indices(ck, tag + "_tie", PREAMBLE, "Usage.design * bool", cases,
+    def real_term(i):
+        if accepted[i]:
+            return "RealAccept"
+        if reasons[i] in REASONS:
+            return "(RealReject %s)" % reasons[i]
+        if any(u in res[i].get("error", "") for u in UNMODELLED):
+            return "RealRejectUnmodelled"
+        return "RealRejectOther"
+
+    cases = ["(%s, %s)" % (t, real_term(i)) for i, t in enumerate(terms)]
+    bad = set(common.coq_bad_indices(ck, tag + "_tie", PREAMBLE, "Usage.design * real", cases,
                                      "verdict_ok %s" % model_fn()))
     # ---- (2) spec in Coq on the accepted ones ---------------------------------------------
     acc_ix = [i for i, a in enumerate(accepted) if a]
